@@ -4,6 +4,7 @@ package verifrt
 
 import (
 	"context"
+	"errors"
 	"sync"
 	"time"
 
@@ -227,3 +228,41 @@ func (r *PartsReader) Read(p []byte) (int, error) {
 	return 0, nil
 }
 func (r *PartsReader) Close() error { r.Closed = true; return nil }
+
+// ---------- tlog pieces that decode bytes ----------
+
+var errTlog = errors.New("model: tlog error")
+
+//wsym:replace golang.org/x/mod/sumdb/tlog.ParseTree
+func TlogParseTree(text []byte) (tlog.Tree, error) {
+	// contract (x/mod tlog/note.go): succeeds only for "go.sum database tree\n<n>\n<hash>\n..."
+	// with 0 <= n < 2^63 in canonical decimal and a hash of exactly 32 bytes; size and hash are
+	// the same second and third lines that formats/log.Checkpoint.Unmarshal reads.
+	if !UFBool("treeTextOK", text) {
+		return tlog.Tree{}, errTlog
+	}
+	Assume(TextSize(text) < 1<<63)
+	Assume(len(TextHash(text)) == 32)
+	return tlog.Tree{N: int64(TextSize(text)), Hash: tlog.Hash(Hash32(TextHash(text)))}, nil
+}
+
+// arbReader answers ReadHashes with an error or with one arbitrary hash per index.
+type arbReader struct{}
+
+func (arbReader) ReadHashes(indexes []int64) ([]tlog.Hash, error) {
+	Log(Ev{K: "tlog.ReadHashes", U: []uint64{uint64(len(indexes))}})
+	if Bool("readhashes.fails") {
+		return nil, errTlog
+	}
+	var out []tlog.Hash
+	for range indexes {
+		out = append(out, tlog.Hash(Hash32(Bytes("storedhash"))))
+	}
+	return out, nil
+}
+
+// TileHashReader's tile decoding and re-hashing is outside the encodable set: its contract is
+// "one hash per requested index, or an error".
+//
+//wsym:replace golang.org/x/mod/sumdb/tlog.TileHashReader
+func TlogTileHashReader(tree tlog.Tree, tr tlog.TileReader) tlog.HashReader { return arbReader{} }
